@@ -290,6 +290,69 @@ def cold_start(ntags, delays):
     return problems
 
 
+def same_port_peers(port):
+    """Sessions from different client addresses that happen to use the SAME source port number are separate sessions: one ending
+    (or being refused) must not end the other.  -> problems"""
+    import struct
+    problems = []
+
+    def frame(cmd, payload=b'', sess=0, cx=b'peerpeer'):
+        return struct.pack('<HHII', cmd, len(payload), sess, 0) + cx + struct.pack('<I', 0) + payload
+
+    def rx(sk):
+        buf = b''
+        try:
+            while len(buf) < 24 or len(buf) < 24 + struct.unpack('<H', buf[2:4])[0]:
+                d = sk.recv(4096)
+                if not d:
+                    return None
+                buf += d
+        except OSError:
+            return None
+        return buf
+
+    def opened(ip, p0):
+        sk = socket.socket(); sk.setsockopt(socket.SOL_SOCKET, socket.SO_REUSEADDR, 1)
+        sk.bind((ip, p0)); sk.settimeout(5); sk.connect(('127.0.0.1', port))
+        sk.sendall(frame(0x65, struct.pack('<HH', 1, 0)))
+        r = rx(sk)
+        return sk, (struct.unpack('<I', r[4:8])[0] if r else None)
+
+    for attempt in range(2):
+        t = socket.socket(); t.bind(('127.0.0.1', 0)); p0 = t.getsockname()[1]; t.close()
+        socks = []
+        try:
+            a, ha = opened('127.0.0.1', p0); socks.append(a)
+            b, hb = opened('127.0.0.2', p0); socks.append(b)
+            if not ha or not hb:
+                problems.append('two clients (127.0.0.1:%d and 127.0.0.2:%d) could not both register a session: handles %r %r' % (p0, p0, ha, hb)); break
+            for sk, h, who in ((a, ha, 'first'), (b, hb, 'second')):
+                sk.sendall(frame(0x63, sess=h, cx=b'ident-%02d' % attempt))
+                r = rx(sk)
+                if r is None or r[:2] != b'\x63\x00' or r[12:20] != b'ident-%02d' % attempt:
+                    problems.append('the %s of two sessions from different addresses with the same source port got no List Identity reply' % who)
+            if attempt == 0:
+                a.sendall(frame(0x66, sess=ha)); a.close()                       # the first session ends normally
+            else:
+                a.sendall(frame(0x6F, b'\x00' * 6 + b'\x07\x00garbage', sess=ha)); rx(a); a.close()   # the first session ends on a refused request
+            time.sleep(0.3)
+            b.sendall(frame(0x63, sess=hb, cx=b'after-%02d' % attempt))
+            r = rx(b)
+            if r is None or r[12:20] != b'after-%02d' % attempt:
+                problems.append('a session from 127.0.0.2:%d was ended when the session from 127.0.0.1:%d ended' % (p0, p0))
+        except OSError as e:
+            problems.append('same-port peers: %s %s' % (type(e).__name__, e))
+        finally:
+            for sk in socks:
+                try:
+                    sk.close()
+                except OSError:
+                    pass
+        if problems:
+            break
+    return problems
+
+
 def stress(nsessions, rounds, switch, seed):
     proc, port = start_simulator(switch)
     out = {}
@@ -301,6 +364,7 @@ def stress(nsessions, rounds, switch, seed):
             t.join(120)
         if any(t.is_alive() for t in ths):
             return ['a session did not finish within 120 s']
+        out[nsessions] = same_port_peers(port)
     finally:
         proc.terminate()
         try:
